@@ -11,6 +11,7 @@ import GoNfsd.Lemmas.DirData
 import GoNfsd.Lemmas.Enumerate
 import GoNfsd.Lemmas.EntriesStay
 import GoNfsd.Lemmas.DirSize
+import GoNfsd.Lemmas.NameCacheReuse
 import GoNfsd.Gen.Skeleton
 
 namespace GoNfsd.Props.C13
@@ -404,5 +405,17 @@ theorem a_live_directory_never_loses_slots (s : GoNfsd.Model.Fs.FS) (op : GoNfsd
     ((GoNfsd.Model.Fs.step s op c).1.get i).kind = 0 ∨
       (s.get i).slots.length ≤ ((GoNfsd.Model.Fs.step s op c).1.get i).slots.length :=
   GoNfsd.Model.Fs.step_grows s op c i hl
+
+/-- … and the refill is what the directory code does: after `RemName` has cleared slot `i > 0` the `Lastoff` hint points at it,
+    and the next `AddName` on that directory (the second half of a RENAME inside one directory) writes that very slot — in
+    every state reachable by model M8e (`Props/C10.name_cache_is_the_directory`).  The new name appears under the cookie of
+    the old one; every other entry keeps its own. -/
+theorem a_rename_inside_a_directory_refills_the_slot_of_the_old_name (ops : List GoNfsd.Model.NameCache.Op)
+    (name name' : GoNfsd.Model.Fs.Bytes) (inum i : Nat)
+    (hr : (GoNfsd.Model.NameCache.remName (GoNfsd.Model.NameCache.run {} ops).cur name).2 = some i) (h0 : i ≠ 0)
+    (hl : name'.length ≤ GoNfsd.Gen.Consts.MAXNAMELEN) :
+    (GoNfsd.Model.NameCache.addName (GoNfsd.Model.NameCache.remName (GoNfsd.Model.NameCache.run {} ops).cur name).1 inum name').2 = some i :=
+  GoNfsd.Model.NameCache.add_after_remove_reuses_the_slot _ name name' inum i
+    (GoNfsd.Model.NameCache.run_inv {} ops GoNfsd.Model.NameCache.empty_inv).cur hr h0 hl
 
 end GoNfsd.Props.C13
